@@ -70,11 +70,14 @@ class Report:
         wall = time.time() - self.t0
         os.makedirs(os.path.join(VERIF, "evidence"), exist_ok=True)
         os.makedirs(os.path.join(VERIF, "replay"), exist_ok=True)
-        if self.broken:
+        if self.broken and not new_groups:
             for b in self.broken:
                 print("ANALYSIS-BROKEN property=%s %s" % (self.pid, b))
             self.write_evidence(wall, len(new_groups), broken=True, stale=[])
             return 2
+        for b in self.broken:
+            # a definite violation was found by a rule that did complete; the parts that could not be analysed are listed as notes
+            print("note: ANALYSIS-INCOMPLETE property=%s %s" % (self.pid, b))
         for k in kf:
             if (k["rule"], k["site"]) in matched:
                 print("KNOWN-FINDING: property=%s %s [%s]: %s" % (self.pid, k["site"], k["rule"], k["what"]))
